@@ -217,7 +217,11 @@ func injectLexFault(t *rapid.T, src string, pos []gen.TokPos) (string, int, stri
 		at = pos[g].Start
 	}
 	frag := gen.Pick(t, "lexfault", lexFaults)
-	return src[:at] + " " + frag + " " + src[at:], g, frag
+	sep := " "
+	if at == len(src) {
+		sep = "\n" // the last gap may end in a comment without a line end
+	}
+	return src[:at] + sep + frag + " " + src[at:], g, frag
 }
 
 type srcCase struct {
